@@ -129,15 +129,15 @@ Proof.
   destruct (existsb _ g1); reflexivity.
 Qed.
 
-Lemma clean_entity_lfeats s en :
-  lfeats (clean_entity_caches s en) = map (clean_f (keepE (re_dev en) [re_addr en])) (lfeats s).
+Lemma clean_entity_lfeats s d a :
+  lfeats (clean_entity_caches s d a) = map (clean_f (keepE d [a])) (lfeats s).
 Proof.
-  unfold clean_entity_caches. destruct (re_dev en) as [d|].
+  unfold clean_entity_caches. destruct d as [d|].
   - simpl. apply map_ext. intros f. unfold clean_f.
-    rewrite !(filter_ext' (fun a => negb (eqb_optN (fa_dev a) (Some d) && eqb_eaddr (fa_ent a) (re_addr en)))
-                          (keepE (Some d) [re_addr en])) by (intros a; simpl; rewrite orb_false_r; reflexivity).
+    rewrite !(filter_ext' (fun x => negb (eqb_optN (fa_dev x) (Some d) && eqb_eaddr (fa_ent x) a))
+                          (keepE (Some d) [a])) by (intros x; simpl; rewrite orb_false_r; reflexivity).
     reflexivity.
-  - rewrite map_clean_id; [reflexivity | intros a; reflexivity].
+  - rewrite map_clean_id; [reflexivity | intros x; reflexivity].
 Qed.
 
 Lemma clean_device_lfeats s d :
@@ -181,14 +181,7 @@ Proof.
 Qed.
 
 Lemma addr_ok_distinct s : addr_ok s = true -> distinct_addrs (peers s) = true.
-Proof. unfold addr_ok. intros H. apply andb_true_iff in H. tauto. Qed.
-
-Lemma addr_ok_ents s p pe en : addr_ok s = true -> find_peer s p = Some pe -> In en (p_ents pe) -> re_dev en = p_addr pe.
-Proof.
-  unfold addr_ok. intros H Hf Hen. apply andb_true_iff in H. destruct H as [_ H].
-  rewrite forallb_forall in H. specialize (H pe (find_peer_In _ _ _ Hf)).
-  rewrite forallb_forall in H. apply eqb_optN_eq. exact (H en Hen).
-Qed.
+Proof. unfold addr_ok. auto. Qed.
 
 (* a reference names the device address of connection p iff it was written to p *)
 Lemma ref_of_conn s cr p pe d x :
@@ -288,108 +281,78 @@ Proof.
 Qed.
 
 (* ================================================================ entity removal: what is cleaned *)
-Lemma add_entities_dev m l : forall pe,
-  (forall en, In en (p_ents pe) -> re_dev en = p_addr pe) -> (p_addr pe = None -> dm_dev m = None) ->
-  forall en, In en (p_ents (fst (add_entities pe m l))) -> re_dev en = p_addr pe.
+Lemma addr_pres_find s s' p pe : addr_pres s s' -> find_peer s p = Some pe ->
+  exists pe', find_peer s' p = Some pe' /\ p_addr pe' = p_addr pe.
 Proof.
-  induction l as [|de r IH]; intros pe Hd Hm; simpl; [exact Hd|].
-  assert (Hdev : forall en0, re_dev en0 = p_addr pe ->
-                   match re_dev en0 with Some d => Some d | None => dm_dev m end = p_addr pe).
-  { intros en0 H0. rewrite H0. destruct (p_addr pe) eqn:Ea; [reflexivity | apply Hm; reflexivity]. }
-  destruct (find_rent pe (de_addr de)) as [en0|] eqn:Ef.
-  - assert (H0 : re_dev en0 = p_addr pe) by (apply Hd; unfold find_rent in Ef; apply find_some in Ef; tauto).
-    match goal with |- context [add_entities ?pe1 m r] =>
-      specialize (IH pe1); destruct (add_entities pe1 m r) as [pe2 cr] end.
-    simpl in *. apply IH; [|exact Hm].
-    intros en Hen. apply in_map_iff in Hen. destruct Hen as [y [Hy Hin]].
-    destruct (eqb_eaddr (re_addr y) (de_addr de)); [subst en; simpl; apply Hdev; exact H0 | subst y; apply Hd; exact Hin].
-  - match goal with |- context [add_entities ?pe1 m r] =>
-      specialize (IH pe1); destruct (add_entities pe1 m r) as [pe2 cr] end.
-    simpl in *. apply IH; [|exact Hm].
-    intros en Hen. apply in_app_or in Hen. destruct Hen as [Hen|[<-|[]]]; [apply Hd; exact Hen|].
-    simpl. destruct (p_addr pe) eqn:Ea; [reflexivity | apply Hm; reflexivity].
+  intros [H _] Ep. specialize (H p). rewrite Ep in H. destruct (find_peer s' p) as [pe'|]; [|destruct H].
+  exists pe'. auto.
 Qed.
 
-Lemma remove_entities_lfeats l : forall s p s' evs err pe,
-  remove_entities s p l = (s', evs, err) -> find_peer s p = Some pe ->
-  (forall en, In en (p_ents pe) -> re_dev en = p_addr pe) ->
-  lfeats s' = map (clean_f (keepE (p_addr pe) (gone_of evs))) (lfeats s) /\
-  exists pe', find_peer s' p = Some pe' /\ p_addr pe' = p_addr pe /\ (forall en, In en (p_ents pe') -> In en (p_ents pe)).
+Lemma remove_entity_lfeats s p a s' evs pe :
+  remove_entity s p a = (s', evs) -> find_peer s p = Some pe ->
+  lfeats s' = map (clean_f (keepE (p_addr pe) (gone_of evs))) (lfeats s).
 Proof.
-  induction l as [|de r IH]; intros s p s' evs err pe H Ep Hd.
-  - simpl in H. inversion H; subst. split; [|exists pe; auto].
-    rewrite map_clean_id; [reflexivity | intros a; apply keepE_nil].
-  - rewrite remove_entities_cons, Ep in H.
-    destruct (check_entity pe de); cbn [negb] in H.
-    2:{ inversion H; subst. split; [|exists pe; auto]. rewrite map_clean_id; [reflexivity | intros a; apply keepE_nil]. }
-    destruct (find_rent pe (de_addr de)) as [en|] eqn:Een; [|exact (IH _ _ _ _ _ _ H Ep Hd)].
-    cbv zeta in H.
-    set (pe1 := {| p_ski := p_ski pe; p_addr := p_addr pe;
-                   p_ents := filter (fun x => negb (eqb_eaddr (re_addr x) (de_addr de))) (p_ents pe) |}) in *.
-    pose proof (remove_for_entity_spec (set_peer s pe1) pe1 en) as Hr.
-    destruct (remove_for_entity (set_peer s pe1) pe1 en) as [s2 evs1] eqn:Hrfe.
-    destruct Hr as [_ [Hp2 [_ [_ Hg1]]]].
-    destruct (clean_entity_caches_frame s2 en) as [_ Hp3].
-    destruct (remove_entities (clean_entity_caches s2 en) p r) as [[s4 evs2] err2] eqn:Er.
-    injection H as H1 H2 H3. subst s' evs err.
-    pose proof (find_peer_ski _ _ _ Ep) as Hski.
-    assert (Ep3 : find_peer (clean_entity_caches s2 en) p = Some pe1).
-    { unfold find_peer. rewrite Hp3, Hp2. fold (find_peer (set_peer s pe1) p).
-      rewrite find_peer_set_peer, Ep. simpl p_ski. rewrite Hski, N.eqb_refl. reflexivity. }
-    assert (Hd1 : forall en0, In en0 (p_ents pe1) -> re_dev en0 = p_addr pe1).
-    { intros en0 H0. simpl in H0. apply filter_In in H0. apply Hd. tauto. }
-    destruct (IH _ _ _ _ _ _ Er Ep3 Hd1) as [Hl4 [pe' [Ep4 [Ha4 Hsub4]]]].
-    assert (Hen : re_dev en = p_addr pe) by (apply Hd; unfold find_rent in Een; apply find_some in Een; tauto).
-    assert (Hl2 : lfeats s2 = lfeats s) by (unfold remove_for_entity in Hrfe; inversion Hrfe; reflexivity).
-    split.
-    + rewrite Hl4, clean_entity_lfeats, Hl2, map_clean_clean. simpl p_addr. rewrite Hen.
-      apply map_clean_ext. intros a.
-      change (gone_of (ev_entity ChRemove pe (re_addr en) :: evs1 ++ evs2)) with ([re_addr en] ++ gone_of (evs1 ++ evs2)).
-      rewrite gone_of_app, Hg1. simpl app at 2. rewrite keepE_app. reflexivity.
-    + exists pe'. split; [exact Ep4|]. split; [rewrite Ha4; reflexivity|].
-      intros en0 H0. specialize (Hsub4 en0 H0). simpl in Hsub4. apply filter_In in Hsub4. tauto.
+  intros H Ep. rewrite remove_entity_unfold, Ep in H.
+  destruct (find_rent pe a) as [en|] eqn:Een.
+  2:{ inversion H; subst. rewrite map_clean_id; [reflexivity | intros x; apply keepE_nil]. }
+  cbv zeta in H.
+  set (pe1 := {| p_ski := p_ski pe; p_addr := p_addr pe;
+                 p_ents := filter (fun x => negb (eqb_eaddr (re_addr x) a)) (p_ents pe) |}) in *.
+  pose proof (remove_for_entity_spec (set_peer s pe1) pe1 en) as Hr.
+  destruct (remove_for_entity (set_peer s pe1) pe1 en) as [s2 evs1] eqn:Hrfe.
+  destruct Hr as [_ [_ [_ [_ Hg1]]]].
+  injection H as H1 H2. subst s' evs.
+  assert (Hl2 : lfeats s2 = lfeats s) by (unfold remove_for_entity in Hrfe; inversion Hrfe; reflexivity).
+  rewrite clean_entity_lfeats, Hl2.
+  change (gone_of (ev_entity ChRemove pe (re_addr en) :: evs1)) with (re_addr en :: gone_of evs1).
+  rewrite Hg1, (find_rent_addr _ _ _ Een). reflexivity.
 Qed.
 
-Lemma find_peer_add_entities s p pe m l :
-  find_peer s p = Some pe -> find_peer (set_peer s (fst (add_entities pe m l))) p = Some (fst (add_entities pe m l)).
+Lemma lfeats_compose K1 K2 l l1 l2 :
+  l1 = map (clean_f K1) l -> l2 = map (clean_f K2) l1 -> forall K, (forall x, K x = K1 x && K2 x) -> l2 = map (clean_f K) l.
+Proof. intros -> -> K HK. rewrite map_clean_clean. apply map_clean_ext. intros x. symmetry. apply HK. Qed.
+
+Lemma remove_unlisted_lfeats listed es : forall s p s' evs pe,
+  remove_unlisted s p listed es = (s', evs) -> find_peer s p = Some pe ->
+  lfeats s' = map (clean_f (keepE (p_addr pe) (gone_of evs))) (lfeats s).
 Proof.
-  intros Ep. rewrite find_peer_set_peer, Ep, add_entities_ski, (find_peer_ski _ _ _ Ep), N.eqb_refl. reflexivity.
+  induction es as [|a r IH]; intros s p s' evs pe H Ep.
+  - simpl in H. inversion H; subst. rewrite map_clean_id; [reflexivity | intros x; apply keepE_nil].
+  - simpl in H. destruct (existsb (eqb_eaddr a) listed || eqb_eaddr a [0%N]); [exact (IH _ _ _ _ _ H Ep)|].
+    destruct (remove_entity s p a) as [s1 evs1] eqn:E1.
+    destruct (remove_unlisted s1 p listed r) as [s2 evs2] eqn:E2.
+    injection H as H1 H2. subst s' evs.
+    destruct (addr_pres_find _ _ _ _ (remove_entity_addr _ _ _ _ _ E1) Ep) as [pe' [Ep' Ha']].
+    eapply (lfeats_compose _ _ _ _ _ (remove_entity_lfeats _ _ _ _ _ _ E1 Ep) (IH _ _ _ _ _ E2 Ep')).
+    intros x. rewrite Ha', gone_of_app, keepE_app. reflexivity.
 Qed.
 
 Lemma notify_entries_lfeats l : forall s p m s' evs err pe,
   notify_entries s p m l = (s', evs, err) -> find_peer s p = Some pe ->
-  (forall en, In en (p_ents pe) -> re_dev en = p_addr pe) -> (p_addr pe = None -> dm_dev m = None) ->
   lfeats s' = map (clean_f (keepE (p_addr pe) (gone_of evs))) (lfeats s).
 Proof.
-  induction l as [|de r IH]; intros s p m s' evs err pe H Ep Hd Hm.
-  - simpl in H. inversion H; subst. rewrite map_clean_id; [reflexivity | intros a; apply keepE_nil].
-  - rewrite notify_entries_cons in H.
-    destruct (de_state de) as [[|]|].
-    + rewrite Ep in H. destruct (all_checked pe (dm_ents m)); cbn [negb] in H.
-      * pose proof (find_peer_add_entities s p pe m (dm_ents m) Ep) as Ep1.
-        pose proof (add_entities_dev m (dm_ents m) pe Hd Hm) as Hd1.
-        pose proof (add_entities_addr pe m (dm_ents m)) as Ha1.
-        destruct (add_entities pe m (dm_ents m)) as [pe1 created]. simpl fst in *. cbv zeta in H.
-        destruct (notify_entries (set_peer s pe1) p m r) as [[s2 evs2] err2] eqn:Er.
-        injection H as H1 H2 H3. subst s' evs err.
-        rewrite gone_of_app, gone_of_added. simpl app.
-        rewrite <- Ha1. apply (IH _ _ _ _ _ _ pe1 Er Ep1).
-        -- intros en Hen. rewrite Ha1. apply Hd1. exact Hen.
-        -- rewrite Ha1. exact Hm.
-      * cbv zeta in H.
-        match type of H with context [add_entities pe m ?ok] => destruct (add_entities pe m ok) as [pe1 cr] end.
-        inversion H; subst. rewrite map_clean_id; [reflexivity | intros a; apply keepE_nil].
-    + destruct (remove_entities s p (dm_ents m)) as [[s1 evs1] err1] eqn:Er1.
-      destruct (remove_entities_lfeats _ _ _ _ _ _ _ Er1 Ep Hd) as [Hl1 [pe' [Ep1 [Ha1 Hsub1]]]].
-      destruct err1; [inversion H; subst; exact Hl1|].
+  induction l as [|de r IH]; intros s p m s' evs err pe H Ep.
+  - simpl in H. inversion H; subst. rewrite map_clean_id; [reflexivity | intros x; apply keepE_nil].
+  - rewrite notify_entries_cons, Ep in H.
+    destruct (de_state de) as [[|]|];
+      [| |inversion H; subst; rewrite map_clean_id; [reflexivity | intros x; apply keepE_nil]].
+    + destruct (check_entity pe de); cbn [negb] in H;
+        [|inversion H; subst; rewrite map_clean_id; [reflexivity | intros x; apply keepE_nil]].
+      pose proof (addr_pres_add_entities s p pe m [de] Ep) as Ha.
+      destruct (add_entities pe m [de]) as [pe1 created]. simpl fst in Ha.
+      destruct (notify_entries (set_peer s pe1) p m r) as [[s2 evs2] err2] eqn:Er.
+      injection H as H1 H2 H3. subst s' evs err.
+      destruct (addr_pres_find _ _ _ _ Ha Ep) as [pe' [Ep' Ha']].
+      rewrite gone_of_app, gone_of_added. simpl app. rewrite <- Ha'.
+      exact (IH _ _ _ _ _ _ _ Er Ep').
+    + destruct (check_removed pe de); cbn [negb] in H;
+        [|inversion H; subst; rewrite map_clean_id; [reflexivity | intros x; apply keepE_nil]].
+      destruct (remove_entity s p (de_addr de)) as [s1 evs1] eqn:E1.
       destruct (notify_entries s1 p m r) as [[s2 evs2] err2] eqn:Er.
       injection H as H1 H2 H3. subst s' evs err.
-      assert (Hd1 : forall en, In en (p_ents pe') -> re_dev en = p_addr pe').
-      { intros en Hen. rewrite Ha1. apply Hd. apply Hsub1. exact Hen. }
-      assert (Hm1 : p_addr pe' = None -> dm_dev m = None) by (rewrite Ha1; exact Hm).
-      rewrite (IH _ _ _ _ _ _ pe' Er Ep1 Hd1 Hm1), Hl1, map_clean_clean, Ha1.
-      apply map_clean_ext. intros a. rewrite gone_of_app, keepE_app. reflexivity.
-    + inversion H; subst. rewrite map_clean_id; [reflexivity | intros a; apply keepE_nil].
+      destruct (addr_pres_find _ _ _ _ (remove_entity_addr _ _ _ _ _ E1) Ep) as [pe' [Ep' Ha']].
+      eapply (lfeats_compose _ _ _ _ _ (remove_entity_lfeats _ _ _ _ _ _ E1 Ep) (IH _ _ _ _ _ _ _ Er Ep')).
+      intros x. rewrite Ha', gone_of_app, keepE_app. reflexivity.
 Qed.
 
 (* ================================================================ one connection per SKI *)
@@ -454,9 +417,9 @@ Proof.
   exact (notify_entries_addr _ _ _ _ _ _ _ En).
 Qed.
 
-Lemma peers_ok_step s o : NoDup (skis s) -> NoDup (skis (fst (step s o))).
+Lemma peers_ok_step s o : RegOK s -> NoDup (skis s) -> NoDup (skis (fst (step s o))).
 Proof.
-  intros Hnd. destruct (is_frame o) eqn:Ef.
+  intros Hok Hnd. destruct (is_frame o) eqn:Ef.
   { destruct (frame_step s o Ef) as [_ [_ [_ H]]]. rewrite H. exact Hnd. }
   destruct o; try discriminate.
   - (* Connect *)
@@ -471,6 +434,7 @@ Proof.
     destruct (find_peer s p) as [pe0|] eqn:Ep.
     + destruct (disconnect s p) as [s0 evs]. simpl. apply G. exact Hd.
     + simpl. apply G. unfold disconnect in Hd. rewrite Ep in Hd. exact Hd.
+  - rewrite (reply_skis s p m Hok). exact Hnd.
   - destruct (notify_step_addr s p ctr ack m) as [_ H]. rewrite H. exact Hnd.
   - destruct (registry_ops_same s (SubCall p ctr ack c) eq_refl) as [H _]. unfold skis. rewrite H. exact Hnd.
   - destruct (registry_ops_same s (SubDelete p ctr ack c) eq_refl) as [H _]. unfold skis. rewrite H. exact Hnd.
@@ -558,7 +522,15 @@ Proof.
   - intros x Hx. apply in_app_or in Hx. destruct Hx as [Hx|[<-|[]]]; [apply Hold; exact Hx | exact Hnew].
 Qed.
 
-(* ================================================================ the client step lemma *)
+(* ================================================================ discovery reply / notification: helpers *)
+Lemma owners_pres0 s s1 cr : addr_pres s s1 -> CInv s cr ->
+  forall x, In x cr -> exists pe d, find_peer s1 (c_ski x) = Some pe /\ p_addr pe = Some d /\ fa_dev (c_addr x) = Some d.
+Proof.
+  intros [Ha _] C x Hx. destruct (ci_owner _ _ C x Hx) as [pe [d [Hf [Hd Hx']]]].
+  specialize (Ha (c_ski x)). rewrite Hf in Ha. destruct (find_peer s1 (c_ski x)) as [pe'|]; [|destruct Ha].
+  exists pe', d. rewrite <- Ha. auto.
+Qed.
+
 Lemma owners_pres s s1 cr : addr_pres s s1 -> CInv s cr ->
   forall x, In x cr -> exists pe d, find_peer s1 (c_ski x) = Some pe /\ p_addr pe = Some d /\ fa_dev (c_addr x) = Some d.
 Proof.
@@ -567,6 +539,207 @@ Proof.
   exists pe', d. rewrite <- Ha. auto.
 Qed.
 
+Lemma CInv_owners s s1 cr :
+  lfeats s1 = lfeats s ->
+  (forall x, In x cr -> exists pe d, find_peer s1 (c_ski x) = Some pe /\ p_addr pe = Some d /\ fa_dev (c_addr x) = Some d) ->
+  addr_ok s1 = true -> NoDup (skis s1) -> CInv s cr -> CInv s1 cr.
+Proof.
+  intros Hl Ho Hok Hnd C. apply (CInv_map s s1 (fun x => x) cr); try assumption.
+  - rewrite map_id. exact Hl.
+  - intros x. split; reflexivity.
+  - intros e f lf _ A B. auto.
+  - apply (ci_feat _ _ C).
+Qed.
+
+(* entities [gone] of connection p removed: bookkeeping cleaned with p's announced address *)
+Lemma CInv_entity_teardown s s' cr p gone :
+  CInv s cr ->
+  match find_peer s p with
+  | Some pe => lfeats s' = map (clean_f (keepE (p_addr pe) gone)) (lfeats s)
+  | None => lfeats s' = lfeats s /\ gone = []
+  end ->
+  addr_pres s s' -> addr_ok s' = true -> NoDup (skis s') ->
+  CInv s' (filter (fun x => negb (ref_of_entity p gone x)) cr).
+Proof.
+  intros C Hl Hap Hok Hnd. destruct (find_peer s p) as [pe|] eqn:Ep.
+  - apply (CInv_teardown s s' cr (keepE (p_addr pe) gone)); try assumption.
+    + intros x Hx. unfold ref_of_entity, keepE. destruct (p_addr pe) as [d|] eqn:Ea.
+      * rewrite (ref_of_conn s cr p pe d x C Ep Ea Hx). reflexivity.
+      * rewrite (no_ref_of_addressless s cr p pe x C Ep Ea Hx). reflexivity.
+    + intros x Hx _. apply (owners_pres0 s s' cr Hap C x Hx).
+  - destruct Hl as [Hl ->]. apply (CInv_teardown_id s s' cr); try assumption.
+    + intros x _. unfold ref_of_entity. simpl. rewrite andb_false_r. reflexivity.
+    + apply (owners_pres0 s s' cr Hap C).
+Qed.
+
+(* (SKI, address) lists *)
+Lemma addr_list_eq (l l' : list peer) :
+  map p_ski l' = map p_ski l -> NoDup (map p_ski l) ->
+  (forall q, match find (fun x => N.eqb (p_ski x) q) l, find (fun x => N.eqb (p_ski x) q) l' with
+             | Some a, Some b => p_addr a = p_addr b
+             | None, None => True
+             | _, _ => False
+             end) ->
+  map p_addr l = map p_addr l'.
+Proof.
+  revert l'. induction l as [|x l IH]; intros l' Hs Hnd Hf; destruct l' as [|x' r']; try discriminate; [reflexivity|].
+  simpl in Hs. injection Hs as Hx Hr. inversion Hnd as [|? ? Hn Hd]; subst.
+  simpl. f_equal.
+  - specialize (Hf (p_ski x)). simpl in Hf. rewrite N.eqb_refl in Hf. rewrite Hx, N.eqb_refl in Hf. exact Hf.
+  - apply IH; [exact Hr | exact Hd|]. intros q. specialize (Hf q). simpl in Hf.
+    destruct (N.eqb_spec (p_ski x) q) as [E|E].
+    + assert (E' : N.eqb (p_ski x') q = true) by (apply N.eqb_eq; congruence). rewrite E' in Hf.
+      assert (N1 : find (fun y => N.eqb (p_ski y) q) l = None).
+      { destruct (find _ l) eqn:Ef; [|reflexivity]. apply find_some in Ef. destruct Ef as [Hin Hq].
+        apply N.eqb_eq in Hq. exfalso. apply Hn. rewrite E, <- Hq. apply in_map. exact Hin. }
+      assert (N2 : find (fun y => N.eqb (p_ski y) q) r' = None).
+      { destruct (find _ r') eqn:Ef; [|reflexivity]. apply find_some in Ef. destruct Ef as [Hin Hq].
+        apply N.eqb_eq in Hq. exfalso. apply Hn. rewrite E, <- Hq, <- Hr. apply in_map. exact Hin. }
+      rewrite N1, N2. exact I.
+    + assert (E' : N.eqb (p_ski x') q = false) by (apply N.eqb_neq; congruence). rewrite E' in Hf. exact Hf.
+Qed.
+
+Lemma distinct_addrs_ext l l' : map p_addr l = map p_addr l' -> distinct_addrs l = distinct_addrs l'.
+Proof.
+  revert l'. induction l as [|x l IH]; intros l' H; destruct l' as [|x' r']; try discriminate; [reflexivity|].
+  simpl in H. injection H as Hx Hr. simpl. rewrite Hx, (IH r' Hr).
+  assert (G : forall d (a b : list peer), map p_addr a = map p_addr b ->
+              existsb (fun q => eqb_optN (p_addr q) (Some d)) a = existsb (fun q => eqb_optN (p_addr q) (Some d)) b).
+  { intros d a. induction a as [|y a IHa]; intros b Hb; destruct b as [|y' b]; try discriminate; [reflexivity|].
+    simpl in Hb. injection Hb as Hy Hb. simpl. rewrite Hy, (IHa b Hb). reflexivity. }
+  destruct (p_addr x'); [rewrite (G n l r' Hr)|]; reflexivity.
+Qed.
+
+Lemma addr_pres_ok s s' : addr_pres s s' -> NoDup (skis s) -> addr_ok s' = true -> addr_ok s = true.
+Proof.
+  intros [Hf Hs] Hnd Hok. unfold addr_ok in *. rewrite (distinct_addrs_ext (peers s) (peers s')); [exact Hok|].
+  apply addr_list_eq; [exact Hs | exact Hnd | exact Hf].
+Qed.
+
+Lemma addr_pres_sym s s' : addr_pres s s' -> addr_pres s' s.
+Proof.
+  intros [Hf Hs]. split; [|symmetry; exact Hs]. intros q. specialize (Hf q).
+  destruct (find_peer s q), (find_peer s' q); try tauto. symmetry. exact Hf.
+Qed.
+
+Lemma by_addr_In s d pq : peer_by_addr s d = Some pq -> In pq (peers s) /\ p_addr pq = Some d.
+Proof. unfold peer_by_addr. intros H. apply find_some in H. destruct H as [Hin Ha]. apply eqb_optN_eq in Ha. auto. Qed.
+
+Lemma by_addr_exists s d pe : In pe (peers s) -> p_addr pe = Some d -> peer_by_addr s d <> None.
+Proof.
+  intros Hin Ha H. unfold peer_by_addr in H. pose proof (find_none _ _ H pe Hin) as Hn. simpl in Hn.
+  rewrite Ha, eqb_optN_refl in Hn. discriminate.
+Qed.
+
+(* the same device addresses are announced before and after *)
+Lemma addr_pres_by_addr s s' d : addr_pres s s' -> NoDup (skis s) -> peer_by_addr s d <> None -> peer_by_addr s' d <> None.
+Proof.
+  intros Hap Hnd H. destruct (peer_by_addr s d) as [pq|] eqn:E; [|contradiction].
+  destruct (by_addr_In _ _ _ E) as [Hin Ha].
+  pose proof (find_peer_of_In s pq Hnd Hin) as Hf.
+  destruct (addr_pres_find _ _ _ _ Hap Hf) as [pq' [Hf' Ha']].
+  apply (by_addr_exists s' d pq'); [exact (find_peer_In _ _ _ Hf') | congruence].
+Qed.
+
+Definition model_subscription (s : st) (p : N) (m : disc_msg) : option N :=
+  match find_peer s p with
+  | Some pe =>
+      match remote_feature pe (nm_addr None) with
+      | Some (_, rf) => match rf_dev rf with Some d0 => Some d0 | None => reply_addr pe m end
+      | None => None
+      end
+  | None => None
+  end.
+
+Lemma nm_subscription_model s p m :
+  nm_subscription s p m (snd (step s (DiscoveryReply p m))) = model_subscription s p m.
+Proof.
+  unfold nm_subscription, model_subscription. cbn [step]. unfold with_source.
+  destruct (find_peer s p) as [pe|]; [|reflexivity].
+  destruct (remote_feature pe (nm_addr None)) as [[en rf]|]; [|reflexivity].
+  destruct (add_entities _ m (dm_ents m)) as [pe1 created].
+  destruct (remove_unlisted _ p _ _) as [s3 evs]. cbn [snd reply_accepted existsb]. rewrite N.eqb_refl. reflexivity.
+Qed.
+
+Definition nm_ref_map (d0 : N) : lfeat -> lfeat := at_key [0%N] 0 (add_client_ref true (nm_addr (Some d0))).
+
+Lemma handle_device_added_lfeats s1 p pe pe1 l0 :
+  let s2 := handle_device_added s1 p pe pe1 l0 in
+  lfeats s2 =
+  match (match (match remote_feature pe (nm_addr None) with Some (_, rf) => rf_dev rf | None => None end) with
+         | Some d0 => Some d0 | None => p_addr pe1 end) with
+  | Some d0 => match peer_by_addr s2 d0 with
+               | Some _ => map (nm_ref_map d0) (lfeats s1)
+               | None => lfeats s1
+               end
+  | None => lfeats s1
+  end.
+Proof.
+  unfold handle_device_added.
+  set (s1a := if reply_completes pe pe1 then _ else s1).
+  assert (H1a : lfeats s1a = lfeats s1).
+  { unfold s1a. destruct (reply_completes pe pe1); [|reflexivity]. destruct l0; reflexivity. }
+  destruct (match remote_feature pe (nm_addr None) with Some (_, rf) => rf_dev rf | None => None end) as [d0|].
+  - destruct (peer_by_addr s1a d0) eqn:E.
+    + change (peer_by_addr (upd_lfeat s1a [0%N] 0 (add_client_ref true (nm_addr (Some d0)))) d0) with (peer_by_addr s1a d0).
+      rewrite E, upd_lfeat_map, H1a. reflexivity.
+    + rewrite E. exact H1a.
+  - destruct (p_addr pe1) as [d1|]; [|exact H1a].
+    destruct (peer_by_addr s1a d1) eqn:E.
+    + change (peer_by_addr (upd_lfeat s1a [0%N] 0 (add_client_ref true (nm_addr (Some d1)))) d1) with (peer_by_addr s1a d1).
+      rewrite E, upd_lfeat_map, H1a. reflexivity.
+    + rewrite E. exact H1a.
+Qed.
+
+(* the three stages of an accepted discovery reply *)
+Lemma reply_step_structure s p m pe : RegOK s -> find_peer s p = Some pe -> remote_feature pe (nm_addr None) <> None ->
+  exists pe1 s2,
+    p_ski pe1 = p /\ p_addr pe1 = reply_addr pe m /\
+    addr_pres (set_peer s pe1) s2 /\
+    lfeats s2 = match model_subscription s p m with
+                | Some d0 => match peer_by_addr s2 d0 with
+                             | Some _ => map (nm_ref_map d0) (lfeats s)
+                             | None => lfeats s
+                             end
+                | None => lfeats s
+                end /\
+    addr_pres s2 (fst (step s (DiscoveryReply p m))) /\
+    (exists pe2, find_peer s2 p = Some pe2 /\ p_addr pe2 = reply_addr pe m /\
+       lfeats (fst (step s (DiscoveryReply p m))) =
+       map (clean_f (keepE (p_addr pe2) (gone_of (snd (step s (DiscoveryReply p m)))))) (lfeats s2)).
+Proof.
+  intros Hok Ep Hsrc. unfold model_subscription. cbn [step]. unfold with_source. rewrite Ep.
+  destruct (remote_feature pe (nm_addr None)) as [[en rf]|] eqn:Esrc; [|contradiction].
+  set (pe0 := {| p_ski := p_ski pe; p_addr := match dm_dev m with Some d => Some d | None => p_addr pe end; p_ents := p_ents pe |}).
+  pose proof (RegOK_set_peer_add' s p pe pe0 m (dm_ents m) Ep eq_refl eq_refl Hok) as Hok1.
+  pose proof (add_entities_ski pe0 m (dm_ents m)) as Hski.
+  pose proof (add_entities_addr pe0 m (dm_ents m)) as Haddr.
+  destruct (add_entities pe0 m (dm_ents m)) as [pe1 created]. simpl fst in Hok1, Hski, Haddr.
+  pose proof (find_peer_ski _ _ _ Ep) as Hp.
+  assert (Hski1 : p_ski pe1 = p) by (rewrite Hski; simpl; exact Hp).
+  assert (Ep1 : find_peer (set_peer s pe1) p = Some pe1).
+  { rewrite find_peer_set_peer, Ep, Hski1, N.eqb_refl. reflexivity. }
+  pose proof (handle_device_added_addr (set_peer s pe1) p pe pe1
+                (existsb (fun de => eqb_eaddr (de_addr de) [0%N]) (dm_ents m)) Ep1 Hski1 Hok1) as Ha2.
+  pose proof (handle_device_added_lfeats (set_peer s pe1) p pe pe1
+                (existsb (fun de => eqb_eaddr (de_addr de) [0%N]) (dm_ents m))) as Hl2.
+  cbv zeta in Hl2. rewrite Esrc in Hl2.
+  set (s2 := handle_device_added (set_peer s pe1) p pe pe1 (existsb (fun de => eqb_eaddr (de_addr de) [0%N]) (dm_ents m))) in *.
+  destruct (addr_pres_find _ _ _ _ Ha2 Ep1) as [pe2 [Ep2 Ha2']].
+  destruct (remove_unlisted s2 p (map de_addr (dm_ents m)) (map re_addr (p_ents pe1))) as [s3 evs] eqn:Eu.
+  pose proof (remove_unlisted_addr _ _ _ _ _ _ Eu) as Ha3.
+  pose proof (remove_unlisted_lfeats _ _ _ _ _ _ pe2 Eu Ep2) as Hl3. cbn [fst snd].
+  exists pe1, s2. split; [exact Hski1|]. split; [exact Haddr|]. split; [exact Ha2|].
+  split.
+  - rewrite Hl2. unfold reply_addr. rewrite Haddr. simpl p_addr. simpl lfeats. reflexivity.
+  - split; [exact Ha3|]. exists pe2. split; [exact Ep2|]. split; [rewrite Ha2'; exact Haddr|].
+    rewrite Hl3.
+    change (gone_of (OEvent EvDevice ChAdd p None None None :: map (ev_entity ChAdd pe1) created ++ evs))
+      with (gone_of (map (ev_entity ChAdd pe1) created ++ evs)).
+    rewrite gone_of_app, gone_of_added. reflexivity.
+Qed.
+
+(* ================================================================ the client step lemma *)
 Lemma set_data_keeps fn v : keeps_key (fun x => set_data x fn v) /\
   (forall x, lf_subs (set_data x fn v) = lf_subs x /\ lf_binds (set_data x fn v) = lf_binds x).
 Proof. split; intros x; split; reflexivity. Qed.
@@ -604,6 +777,27 @@ Proof.
     + intros x Hx. apply Hown; [exact Hx|]. rewrite (no_ref_of_unknown s cr p x C Ep Hx). reflexivity.
 Qed.
 
+Lemma notify_step_lfeats s p ctr ack m :
+  match find_peer s p with
+  | Some pe => lfeats (fst (step s (DiscoveryNotify p ctr ack m))) =
+               map (clean_f (keepE (p_addr pe) (gone_of (snd (step s (DiscoveryNotify p ctr ack m)))))) (lfeats s)
+  | None => lfeats (fst (step s (DiscoveryNotify p ctr ack m))) = lfeats s /\
+            gone_of (snd (step s (DiscoveryNotify p ctr ack m))) = []
+  end.
+Proof.
+  cbn [step]. unfold with_source. destruct (find_peer s p) as [pe|] eqn:Ep; [|split; reflexivity].
+  assert (Hid : forall g, g = [] -> lfeats s = map (clean_f (keepE (p_addr pe) g)) (lfeats s)).
+  { intros g ->. rewrite map_clean_id; [reflexivity | intros x; apply keepE_nil]. }
+  destruct (remote_feature pe (nm_addr None)); [|apply Hid; reflexivity].
+  destruct (dm_ents m) as [|d0 dr] eqn:Edm.
+  - cbn [fst snd]. apply Hid. unfold call_result. reflexivity.
+  - rewrite <- Edm. destruct (notify_entries s p m (dm_ents m)) as [[s1 evs] err] eqn:En. cbn [fst snd].
+    rewrite gone_of_app.
+    replace (gone_of (call_result p ctr ack err (nm_addr (p_addr pe)) (nm_addr (Some LOCAL_DEV)))) with (@nil eaddr)
+      by (unfold call_result; destruct err; [|destruct ack]; reflexivity).
+    rewrite app_nil_r. exact (notify_entries_lfeats _ _ _ _ _ _ _ pe En Ep).
+Qed.
+
 Lemma find_peer_snoc s0 s1 pe q : peers s1 = peers s0 ++ [pe] -> p_ski pe <> q -> find_peer s1 q = find_peer s0 q.
 Proof.
   unfold find_peer. intros -> H. rewrite find_app'. destruct (find _ (peers s0)); [reflexivity|].
@@ -614,7 +808,7 @@ Lemma client_step s m o : Inv s m -> CInv s (cref m) -> addr_event s o = false -
   CInv (fst (step s o)) (cref (fst (mon m o (snd (step s o))))) /\ client_part m o (snd (step s o)) = [].
 Proof.
   intros I C Hev Hok1. pose proof (inv_w _ _ I) as Hw. pose proof (si_ok _ (inv_s _ _ I)) as Hok.
-  pose proof (peers_ok_step s o (ci_peers _ _ C)) as Hnd1.
+  pose proof (peers_ok_step s o Hok (ci_peers _ _ C)) as Hnd1.
   destruct o; cbn [mon client_part].
   - (* AddLocalEntity *)
     split; [|reflexivity]. cbn [fst cref follow set_accounts].
@@ -647,81 +841,64 @@ Proof.
       * unfold disconnect. rewrite Ep. reflexivity.
       * intros q Hq. eapply find_peer_snoc; [simpl; reflexivity | simpl; congruence].
   - (* DiscoveryReply *)
-    split; [|reflexivity]. cbn [fst cref set_accounts]. rewrite Hw.
-    cbn [step] in *. unfold with_source in *.
-    destruct (find_peer s p) as [pe|] eqn:Ep.
-    2:{ cbn [fst snd] in *. rewrite Ep. apply (CInv_same s); try assumption; [reflexivity | apply addr_pres_refl]. }
-    cbn [addr_event] in Hev. rewrite Ep in Hev.
-    destruct (remote_feature pe (nm_addr None)) as [src|] eqn:Esrc.
-    2:{ cbn [fst snd] in *. rewrite Ep. cbn [existsb].
-        destruct (p_addr pe); apply (CInv_same s); try assumption; try reflexivity; apply addr_pres_refl. }
-    set (pe0 := {| p_ski := p_ski pe; p_addr := match dm_dev m0 with Some d => Some d | None => p_addr pe end; p_ents := p_ents pe |}) in *.
-    pose proof (add_entities_ski pe0 m0 (dm_ents m0)) as Hski.
-    pose proof (add_entities_addr pe0 m0 (dm_ents m0)) as Haddr.
-    destruct (add_entities pe0 m0 (dm_ents m0)) as [pe1 created]. cbn [fst snd] in *.
-    pose proof (find_peer_ski _ _ _ Ep) as Hp.
-    assert (Ep1 : forall s', peers s' = peers (set_peer s pe1) -> find_peer s' p = Some pe1).
-    { intros s' Hs'. unfold find_peer. rewrite Hs'. fold (find_peer (set_peer s pe1) p).
-      rewrite find_peer_set_peer, Ep, Hski. simpl p_ski. rewrite Hp, N.eqb_refl. reflexivity. }
+    split; [|reflexivity]. cbn [fst cref set_accounts]. rewrite Hw, nm_subscription_model, gone_ents_eq.
+    destruct (reply_step_peers s p m0 Hok) as [[Hst Hout]|[pe [pe1' [Ep [Hsrc _]]]]].
+    { (* the reply is dropped *)
+      assert (Hms : model_subscription s p m0 = None).
+      { unfold model_subscription. cbn [step] in Hout. unfold with_source in Hout.
+        destruct (find_peer s p) as [pe|]; [|reflexivity].
+        destruct (remote_feature pe (nm_addr None)) as [[en rf]|]; [|reflexivity].
+        destruct (add_entities _ m0 (dm_ents m0)) as [pe1 created].
+        destruct (remove_unlisted _ p _ _) as [s3 evs]. discriminate. }
+      rewrite Hms, Hout, Hst. apply (CInv_teardown_id s s (cref m)); try assumption; try reflexivity.
+      - intros x _. unfold ref_of_entity. simpl. rewrite andb_false_r. reflexivity.
+      - apply (ci_owner _ _ C).
+      - rewrite <- Hst. exact Hok1.
+      - apply (ci_peers _ _ C). }
+    destruct (reply_step_structure s p m0 pe Hok Ep Hsrc) as [pe1 [s2 [Hski1 [Haddr1 [Ha2 [Hl2 [Ha3 [pe2 [Ep2 [Haddr2 Hl3]]]]]]]]]].
+    set (s' := fst (step s (DiscoveryReply p m0))) in *.
+    assert (Hnd2 : NoDup (skis s2)) by (destruct Ha3 as [_ Hs3]; rewrite <- Hs3; exact Hnd1).
+    assert (Hok2 : addr_ok s2 = true) by (apply (addr_pres_ok s2 s' Ha3 Hnd2 Hok1)).
     (* the address of connection p after the reply is the one it had, if it had one *)
-    assert (Hkeep : forall d, p_addr pe = Some d -> p_addr pe1 = Some d).
-    { intros d Hd. rewrite Haddr. simpl. rewrite Hd in Hev. destruct (dm_dev m0) as [d'|]; [|exact Hd].
+    assert (Hkeep : forall d, p_addr pe = Some d -> reply_addr pe m0 = Some d).
+    { intros d Hd. cbn [addr_event] in Hev. rewrite Ep, Hd in Hev. unfold reply_addr. rewrite Hd.
+      destruct (remote_feature pe (nm_addr None)); [|contradiction].
+      destruct (dm_dev m0) as [d'|]; [|reflexivity].
       apply negb_false_iff, N.eqb_eq in Hev. subst. reflexivity. }
-    assert (Hown : forall s', peers s' = peers (set_peer s pe1) ->
-              forall x, In x (cref m) -> exists pe' d, find_peer s' (c_ski x) = Some pe' /\ p_addr pe' = Some d /\ fa_dev (c_addr x) = Some d).
-    { intros s' Hs' x Hx. destruct (ci_owner _ _ C x Hx) as [pe' [d [Hf [Hd Hx']]]].
-      unfold find_peer. rewrite Hs'. fold (find_peer (set_peer s pe1) (c_ski x)).
-      rewrite find_peer_set_peer, Hf, Hski. simpl p_ski.
-      destruct (N.eqb_spec (c_ski x) (p_ski pe)) as [E|E]; [|eauto].
-      exists pe1, d. split; [reflexivity|]. split; [|exact Hx'].
-      apply Hkeep. rewrite E, Hp, Ep in Hf. inversion Hf; subst. exact Hd. }
-    destruct (p_addr pe1) as [d|] eqn:Ea1.
-    + cbn [fst snd] in *. match goal with |- context [find_peer ?s' p] => rewrite (Ep1 s' eq_refl) end.
-      rewrite Ea1. cbn [existsb]. rewrite N.eqb_refl. cbn [orb].
-      apply (CInv_add_ref s _ (cref m) [0%N] 0%N true (nm_addr (Some d)) p); try assumption.
-      * reflexivity.
-      * apply (ci_nm _ _ C).
-      * exists pe1, d. split; [apply Ep1; reflexivity | split; [exact Ea1 | reflexivity]].
-      * apply Hown. reflexivity.
-    + cbn [fst snd] in *. match goal with |- context [find_peer ?s' p] => rewrite (Ep1 s' eq_refl) end.
-      rewrite Ea1.
-      apply (CInv_same s); try assumption; [reflexivity|].
-      apply (addr_pres_set_peer s pe); [rewrite Hski; simpl; rewrite Hp; exact Ep|].
-      rewrite Ea1. destruct (p_addr pe) as [d|] eqn:Ea; [|reflexivity]. pose proof (Hkeep d eq_refl) as Hk. congruence.
+    assert (Hown2 : forall x, In x (cref m) ->
+              exists pe' d, find_peer s2 (c_ski x) = Some pe' /\ p_addr pe' = Some d /\ fa_dev (c_addr x) = Some d).
+    { intros x Hx. destruct (ci_owner _ _ C x Hx) as [pe' [d [Hf [Hd Hx']]]].
+      assert (H1 : exists pe'', find_peer (set_peer s pe1) (c_ski x) = Some pe'' /\ p_addr pe'' = Some d).
+      { rewrite find_peer_set_peer, Hf, Hski1. destruct (N.eqb_spec (c_ski x) p) as [E|E]; [|eauto].
+        exists pe1. split; [reflexivity|]. rewrite Haddr1. apply Hkeep. rewrite E, Ep in Hf. inversion Hf; subst. exact Hd. }
+      destruct H1 as [pe'' [Hf'' Hd'']]. destruct (addr_pres_find _ _ _ _ Ha2 Hf'') as [pe3 [Hf3 Hd3]].
+      exists pe3, d. split; [exact Hf3|]. split; [congruence | exact Hx']. }
+    assert (Hstage1 : CInv s2 (match model_subscription s p m0 with
+                               | Some d0 => match peer_by_addr s' d0 with
+                                            | Some pq => cref m ++ [ {| c_ent := [0%N]; c_feat := 0; c_sub := true; c_ski := p_ski pq;
+                                                                        c_addr := nm_addr (Some d0) |} ]
+                                            | None => cref m
+                                            end
+                               | None => cref m
+                               end)).
+    { destruct (model_subscription s p m0) as [d0|]; [|apply (CInv_owners s s2 (cref m)); assumption].
+      destruct (peer_by_addr s' d0) as [pq|] eqn:Eq'.
+      - destruct (peer_by_addr s2 d0) as [pq2|] eqn:Eq2.
+        2:{ exfalso. apply (addr_pres_by_addr s' s2 d0 (addr_pres_sym _ _ Ha3) Hnd1); [rewrite Eq'; discriminate | exact Eq2]. }
+        destruct (by_addr_In _ _ _ Eq') as [Hin Hda].
+        pose proof (find_peer_of_In s' pq Hnd1 Hin) as Hfq.
+        destruct (addr_pres_find _ _ _ _ (addr_pres_sym _ _ Ha3) Hfq) as [pq3 [Hf3 Hd3]].
+        apply (CInv_add_ref s s2 (cref m) [0%N] 0%N true (nm_addr (Some d0)) (p_ski pq)); try assumption.
+        + apply (ci_nm _ _ C).
+        + exists pq3, d0. split; [exact Hf3|]. split; [congruence | reflexivity].
+      - destruct (peer_by_addr s2 d0) as [pq2|] eqn:Eq2.
+        { exfalso. apply (addr_pres_by_addr s2 s' d0 Ha3 Hnd2); [rewrite Eq2; discriminate | exact Eq']. }
+        apply (CInv_owners s s2 (cref m)); assumption. }
+    apply (CInv_entity_teardown s2 s' _ p); try assumption. rewrite Ep2. exact Hl3.
   - (* DiscoveryNotify *)
-    split; [|reflexivity]. cbn [fst cref set_accounts].
-    pose proof (notify_step_addr s p ctr ack m0) as Hap.
-    set (Q := fun g (x : centry) => negb (N.eqb (c_ski x) p && existsb (eqb_eaddr (fa_ent (c_addr x))) g)).
-    change (CInv (fst (step s (DiscoveryNotify p ctr ack m0)))
-                 (filter (Q (gone_ents (snd (step s (DiscoveryNotify p ctr ack m0))))) (cref m))).
-    assert (Hnil : forall s', lfeats s' = lfeats s -> addr_pres s s' -> addr_ok s' = true -> NoDup (skis s') ->
-                     CInv s' (filter (Q []) (cref m))).
-    { intros s' Hl Ha Ho Hn. apply (CInv_teardown_id s s' (cref m)); try assumption.
-      - intros x _. unfold Q. simpl. rewrite andb_false_r. reflexivity.
-      - apply (owners_pres s s'); assumption. }
-    cbn [step] in *. unfold with_source in *.
-    destruct (find_peer s p) as [pe|] eqn:Ep; [|apply Hnil; [reflexivity | apply addr_pres_refl | exact Hok1 | exact Hnd1]].
-    destruct (remote_feature pe (nm_addr None)); [|apply Hnil; [reflexivity | apply addr_pres_refl | exact Hok1 | exact Hnd1]].
-    destruct (dm_ents m0) as [|d0 dr] eqn:Edm.
-    { cbn [fst snd] in *.
-      replace (gone_ents (call_result p ctr ack true (nm_addr (p_addr pe)) (nm_addr (Some LOCAL_DEV)))) with (@nil eaddr)
-        by (unfold call_result; reflexivity).
-      apply Hnil; [reflexivity | apply addr_pres_refl | exact Hok1 | exact Hnd1]. }
-    rewrite <- Edm in *. destruct (notify_entries s p m0 (dm_ents m0)) as [[s1 evs] err] eqn:En. cbn [fst snd] in *.
-    rewrite gone_ents_eq, gone_of_app.
-    replace (gone_of (call_result p ctr ack err (nm_addr (p_addr pe)) (nm_addr (Some LOCAL_DEV)))) with (@nil eaddr)
-      by (unfold call_result; destruct err; [|destruct ack]; reflexivity).
-    rewrite app_nil_r.
-    assert (Hd : forall en, In en (p_ents pe) -> re_dev en = p_addr pe).
-    { intros en Hen. exact (addr_ok_ents s p pe en (ci_addr _ _ C) Ep Hen). }
-    assert (Hm : p_addr pe = None -> dm_dev m0 = None).
-    { intros Hn. cbn [addr_event] in Hev. rewrite Ep, Hn in Hev. destruct (dm_dev m0); [discriminate | reflexivity]. }
-    pose proof (notify_entries_lfeats _ _ _ _ _ _ _ pe En Ep Hd Hm) as Hl.
-    apply (CInv_teardown s s1 (cref m) (keepE (p_addr pe) (gone_of evs))); try assumption.
-    + intros x Hx. unfold Q, keepE. destruct (p_addr pe) as [d|] eqn:Ea.
-      * rewrite (ref_of_conn s (cref m) p pe d x C Ep Ea Hx). reflexivity.
-      * rewrite (no_ref_of_addressless s (cref m) p pe x C Ep Ea Hx). reflexivity.
-    + intros x Hx _. apply (owners_pres s s1 (cref m) Hap C x Hx).
+    split; [|reflexivity]. cbn [fst cref set_accounts]. rewrite gone_ents_eq.
+    apply (CInv_entity_teardown s _ (cref m) p); try assumption; [|apply notify_step_addr].
+    apply notify_step_lfeats.
   - (* SubCall *)
     split; [|reflexivity]. cbn [fst cref set_accounts].
     destruct (registry_ops_same s (SubCall p ctr ack c) eq_refl) as [Hp Hl].
